@@ -269,6 +269,12 @@ def plan(pid: str, tier: str, seed: int) -> dict:
             jobs=lambda refs: [{"kind": "inject", "prog": p, "what": "sweep", "at": at, "times": t}
                                for p in progs for t in (1, 2)
                                for at in chunks(range(1, refs[p["name"]]["steps"] + 2), 12)]
+                              # a sweep CONCURRENT with the handlers: n1 deliveries between its read and its queue look-ups,
+                              # n2 more before its push (nested into the real sweep at those statements)
+                              + [{"kind": "inject", "prog": p, "what": f"sweepc:{n1}:{n2}", "at": at}
+                                 for p in progs for (n1, n2) in (((1, 0), (0, 1), (3, 3)) if quick else
+                                                                ((1, 0), (0, 1), (2, 1), (1, 2), (3, 3), (6, 0), (0, 6), (5, 5)))
+                                 for at in chunks(range(1, refs[p["name"]]["steps"] + 2), 12)]
                               + [{"kind": "crash", "prog": p, "points": pts, "sweeps": 2}
                                  for p in progs
                                  for pts in chunks(range(1, refs[p["name"]]["commits"] + 1, 4 if quick else 1), 24)]
@@ -277,7 +283,11 @@ def plan(pid: str, tier: str, seed: int) -> dict:
                                    "opts": {"p_withhold": 0.15, "p_sweep": 0.15, "max_sweeps": 4}}
                                   for p in progs for s in chunks(range(seed * 1000, seed * 1000 + 100), 10)]),
             mc=[(n, {"AnyOrder": "TRUE", "MaxSweeps": 1}, {}) for n in ("chain2", "diamond", "selfloop", "firstof")]
-               + [(n, {"AnyOrder": "FALSE", "MaxSweeps": 2, "EnvBetween": "TRUE"}, {}) for n in ("chain2", "diamond", "poll")],
+               + [(n, {"AnyOrder": "FALSE", "MaxSweeps": 2, "EnvBetween": "TRUE"}, {}) for n in ("chain2", "diamond", "poll")]
+               + [(n, {"AnyOrder": "FALSE", "MaxSweeps": 1, "SplitSweep": "TRUE"}, {}) for n in ("chain2", "diamond", "selfloop", "before2", "poll")]
+               + [("chain2", {"AnyOrder": "TRUE", "MaxSweeps": 1, "SplitSweep": "TRUE"}, {})]
+               + ([] if quick else [(n, {"AnyOrder": "TRUE", "MaxSweeps": 1, "SplitSweep": "TRUE"}, {}) for n in ("diamond", "multitask", "firstof")]
+                  + [("chain2", {"AnyOrder": "FALSE", "MaxSweeps": 2, "SplitSweep": "TRUE", "EnvBetween": "TRUE"}, {})]),
         )
     if pid == "C14":
         progs = transient_family()
